@@ -154,7 +154,7 @@ def run(idx, rep, tier):
         expr = d
         if isinstance(d, ast.Name) and len(asg.get(d.id, [])) == 1:
             expr = asg[d.id][0][0]
-        whole = depends_on_whole(expr, va, asg)
+        whole = whole_through_helpers(idx, init, expr, va, asg)
         construct = f"{ci.name}.__init__:dtype"
         txt = ast.unparse(expr)[:70]
         rep.decide(True if whole else False, "composite-metadata", construct,
@@ -357,6 +357,25 @@ def shape_validation(idx, rep):
                 elif ".shape" in "".join(pair):
                     why = f"`{ast.unparse(cmp_)}` does not compare the contracted dimensions {sorted(want)}"
         rep.decide(ok, "shape-validation", f"LinearOperator.{name}", why, detail="" if ok else "contracted", locs=[idx.loc(m.module, m.node)])
+
+
+def whole_through_helpers(idx, fi, expr, va, asg, depth=0):
+    """depends_on_whole, also when the reduction over the whole collection lives in a helper that receives the collection"""
+    if depends_on_whole(expr, va, asg):
+        return True
+    if depth > 2:
+        return False
+    for c in [n for n in ast.walk(expr) if isinstance(n, ast.Call)]:
+        r = idx.resolve_expr(fi.module, c.func, fi)
+        if r is None or r.kind != "funcs" or getattr(r.val[-1], "rule", None) is not None:
+            continue
+        callee = r.val[-1]
+        for i, a_ in enumerate(c.args):
+            if ast.unparse(a_) in (va, "self." + va) and i < len(callee.params):
+                casg = df.assignments(callee.node)
+                if any(whole_through_helpers(idx, callee, ret.value, callee.params[i], casg, depth + 1) for ret in df.returns(callee.node) if ret.value is not None):
+                    return True
+    return False
 
 
 def depends_on_whole(expr, va, asg, depth=0):
